@@ -3,6 +3,7 @@ import Mathlib.Tactic.Push
 import Mathlib.Data.Rat.Defs
 import IndicatifModel.Proofs.EstimatorBridge
 import IndicatifModel.Generated.Funs
+import IndicatifModel.Proofs.GenBridgeEst
 
 /-!
 # C09 — Rate and ETA estimator laws
@@ -148,6 +149,19 @@ theorem C09_eta_duration_laws {α : Type} (o : Ops α) (isZero : α → Bool) (t
       · rfl
       · simp [h]
   · rcases h with h | h <;> simp [durationOf, h]
+
+/-- **the estimator of the source is the estimator of these theorems.** `Estimator::{record, reset, steps_per_second}` and
+`duration_to_secs`, translated from `src/state.rs` on every run (`tools/rs2lean.py`; `f64` operations become the operations of
+the arithmetic `Ops α`, `estimator_weight` its weight function), are the model's `record`, `reset`, `stepsPerSecond` and `secs`
+for *every* arithmetic, state, position and instant, and `record` cannot panic. Hence `C09_steady`, `C09_bounded`,
+`C09_stall_decay_partial`, `C09_stall_limit` and `C09_reset_forgets` (any ordered field with an exponential weight) and the
+bit-exact `Float` correspondence speak about what the source says now. -/
+theorem C09_source_estimator {α : Type} (o : Ops α) (e : Est α) (steps now : Nat) :
+    (GenBridge.toS e).record o steps now = some ((), GenBridge.toS (record o e steps now)) ∧
+    (GenBridge.toS e).reset o now = some ((), GenBridge.toS (reset o e now)) ∧
+    (GenBridge.toS e).stepsPerSecond o now = some (stepsPerSecond o e now, GenBridge.toS e) ∧
+    Generated.durationToSecs o now = secs o now :=
+  ⟨GenBridge.gen_record o e steps now, GenBridge.gen_reset o e now, GenBridge.gen_stepsPerSecond o e now, rfl⟩
 
 /-- **the source as translated**: `estimator_weight(age) = 0.1 ^ (age / 15)` — the base and the weighting period the
 Float instance of the model (`Model/Estimator`, compared bit for bit with the crate) hard-codes are the source's,
